@@ -9,6 +9,7 @@ import TeraModel.Model.Contrib
 import TeraModel.Generated.ContribSets
 import TeraModel.Lemmas.ContribB64
 import TeraModel.Lemmas.ContribCodecs
+import TeraModel.Lemmas.ContribUtf8
 namespace Tera.Props.C20
 open Tera Tera.Contrib
 
@@ -179,6 +180,37 @@ theorem slug_alphabet (translit : Char → Option (List Nat)) (s : List Char) :
   have inv := slugFold_inv (s.flatMap (slugCharBytes translit)) ([], true) slugInv_init
   exact slug_shape_of_inv _ _ inv _ rfl
 
+
+
+/-! ## the filters on strings (UTF-8 in, `String::from_utf8` out) -/
+
+/-- The statement of the property for the filters themselves: for EVERY string `s`,
+`b64_decode(b64_encode(s, url_safe, padded), url_safe)` is `Ok(s)` — the bytes round-trip
+(`b64_roundtrip`) and are the UTF-8 form of `s`, which `String::from_utf8` accepts and maps back. -/
+theorem b64_filter_roundtrip (urlSafe padded : Bool) (s : List Char) :
+    b64DecodeFilter urlSafe (b64EncodeFilter urlSafe padded s) = .ok s := by
+  unfold b64DecodeFilter b64EncodeFilter
+  rw [b64_roundtrip_bytes urlSafe padded _ (utf8Encode_bytes s)]
+  simp [utf8Decode_encode]
+
+/-- percent-decoding the output of `urlencode(s)` / `urlencode_strict(s)` and reading it as UTF-8
+returns `s`, for every string -/
+theorem urlencode_filter_roundtrip (s : List Char) :
+    utf8Decode (percentDecode (percentEncode Generated.urlencodeSet (utf8Encode s))) = some s ∧
+    utf8Decode (percentDecode (percentEncode Generated.urlencodeStrictSet (utf8Encode s))) = some s := by
+  have h := percent_roundtrip (utf8Encode s) (utf8Encode_bytes s)
+  rw [h.1, h.2]
+  exact ⟨utf8Decode_encode s, utf8Decode_encode s⟩
+
+/-- and the alphabet clauses for the filters on strings -/
+theorem filters_alphabet (urlSafe padded : Bool) (s : List Char) :
+    (∃ body, b64EncodeFilter urlSafe padded s =
+        body ++ List.replicate (if padded then (3 - (utf8Encode s).length % 3) % 3 else 0) PAD
+      ∧ ∀ c ∈ body, c ∈ alphabet urlSafe) ∧
+    EscapedText (fun b => isUnreserved b || b == 47) (percentEncode Generated.urlencodeSet (utf8Encode s)) ∧
+    EscapedText isAlnum (percentEncode Generated.urlencodeStrictSet (utf8Encode s)) := by
+  obtain ⟨body, e, hm, _⟩ := b64_alphabet urlSafe padded (utf8Encode s) (utf8Encode_bytes s)
+  exact ⟨⟨body, e, hm⟩, urlencode_alphabet _ (utf8Encode_bytes s), urlencode_strict_alphabet _ (utf8Encode_bytes s)⟩
 
 /-! ## spot checks (the hypotheses are satisfiable; the models compute what the crates compute) -/
 
